@@ -137,3 +137,37 @@ pub fn c17_placeholder_sizes() {
     chk!(hk::template_witness_size(&t[..n]) == want, "witness_size is the sum of the item sizes plus the item count prefix");
     core::mem::forget(t);
 }
+
+/// The PSBT input satisfier's lock checks (`PsbtInputSatisfier::check_after / check_older`): for
+/// every transaction version, nLockTime and nSequence they are exactly "the transaction meets the
+/// lock": BIP65 incl. the non-final sequence, BIP112 incl. transaction version >= 2.
+// @h c17_psbt_locks timeout=900 mem=8
+#[cfg_attr(kani, kani::proof)]
+#[cfg_attr(kani, kani::unwind(3))]
+pub fn c17_psbt_locks() {
+    use miniscript::bitcoin::transaction::Version;
+    use miniscript::bitcoin::{OutPoint, Psbt, ScriptBuf, Transaction, TxIn, Witness};
+    use miniscript::psbt::PsbtInputSatisfier;
+    use std::collections::BTreeMap;
+    let (ver, nlt, nseq) = (sym::i32_(), sym::u32_(), sym::u32_());
+    let (t, r) = (sym::u32_(), sym::u32_());
+    let tx = Transaction {
+        version: Version(ver),
+        lock_time: absolute::LockTime::from_consensus(nlt),
+        input: vec![TxIn { previous_output: OutPoint::null(), script_sig: ScriptBuf::new(), sequence: Sequence(nseq), witness: Witness::new() }],
+        output: vec![],
+    };
+    let psbt = Psbt { unsigned_tx: tx, version: 0, xpub: BTreeMap::new(), proprietary: BTreeMap::new(), unknown: BTreeMap::new(), inputs: vec![], outputs: vec![] };
+    let s = PsbtInputSatisfier::new(&psbt, 0);
+    let after = <PsbtInputSatisfier as Satisfier<Pk>>::check_after(&s, absolute::LockTime::from_consensus(t));
+    chk!(after == bip65(t, nlt, nseq), "PSBT satisfier: after(t) is available exactly when the transaction meets it (BIP65, non-final input)");
+    if let Ok(rt) = RelLockTime::from_consensus(r) {
+        let older = <PsbtInputSatisfier as Satisfier<Pk>>::check_older(&s, rt.into());
+        chk!(older == (ver >= 2 && bip112(r, nseq)), "PSBT satisfier: older(n) is available exactly when the transaction meets it (BIP112, version >= 2)");
+        cover!(older, "older met");
+        cover!(!older && bip112(r, nseq), "older refused because of the transaction version");
+    }
+    cover!(after, "after met");
+    cover!(!after && nseq == 0xffff_ffff && t <= nlt, "after refused because the input is final");
+    core::mem::forget(psbt);
+}
